@@ -265,4 +265,124 @@ example : Stripped [49, 32, 50] := by decide +kernel
 example : AllIn isAsciiAlnum [65, 49] ∧ strip [65, 49] = [65, 49] :=
   ⟨by decide, strip_eq_self_of_asciiAlnum _ (by decide)⟩
 
+/-! ## `upper()` and white space -/
+
+namespace Uni
+
+theorem upperFullTab_nonempty_nospace :
+    Data.upperFullTab.toList.all (fun e => !e.2.isEmpty && e.2.all (fun u => !isSpace u)) = true := by
+  decide +kernel
+
+/-- no image interval of a simple upper-case run meets a white-space range -/
+theorem upper1Tab_nospace :
+    Data.upper1Tab.toList.all (fun e =>
+      Data.spaceTab.toList.all (fun r => decide (r.2 < e.2.2) || decide (e.2.2 + (e.2.1 - e.1) < r.1))) = true := by
+  decide +kernel
+
+theorem upperC_ne_nil (d : Nat) : upperC d ≠ [] := by
+  unfold upperC
+  split
+  · simp
+  · split
+    · next l hl =>
+      have := List.all_eq_true.mp upperFullTab_nonempty_nospace (d, l) (pointVal_some hl)
+      simp only [Bool.and_eq_true, Bool.not_eq_true', List.isEmpty_eq_false_iff] at this
+      exact this.1
+    · simp
+
+/-- `upper()` never creates white space: a white-space character in `chr(d).upper()` is `d` itself -/
+theorem isSpace_upperC {d u : Nat} (hu : u ∈ upperC d) (hs : isSpace u = true) : isSpace d = true := by
+  by_cases hd : d < 128
+  · rw [upperC_ascii' hd, List.mem_singleton] at hu
+    have hult : u < 128 := by rw [hu]; exact asciiUpper_lt hd
+    rw [isSpace_ascii_iff hult] at hs
+    rw [isSpace_ascii_iff hd]
+    unfold asciiUpper at hu
+    split at hu <;> omega
+  · by_cases hult : u < 128
+    · have hsrc := upperToAsciiSources_complete d u (by omega) hu hult
+      have := upperToAsciiSources_letters d hsrc u hu hult
+      simp only [isAsciiUpper, Bool.and_eq_true, decide_eq_true_eq] at this
+      rw [isSpace_ascii_iff hult] at hs
+      omega
+    · unfold upperC at hu
+      rw [if_neg hd] at hu
+      split at hu
+      · next l hl =>
+        have := List.all_eq_true.mp upperFullTab_nonempty_nospace (d, l) (pointVal_some hl)
+        simp only [Bool.and_eq_true, List.all_eq_true, Bool.not_eq_true'] at this
+        rw [this.2 u hu] at hs; cases hs
+      · simp only [List.mem_singleton] at hu
+        cases hr : runVal Data.upper1Tab d with
+        | none => rw [hr] at hu; simp only [Option.getD_none] at hu; rw [← hu]; exact hs
+        | some r =>
+          rw [hr] at hu; simp only [Option.getD_some] at hu
+          obtain ⟨e, he, h1, h2, h3⟩ := runVal_some hr
+          unfold isSpace at hs
+          rw [if_neg hult] at hs
+          obtain ⟨sr, hsr, h4, h5⟩ := inRanges_true hs
+          have := List.all_eq_true.mp (List.all_eq_true.mp upper1Tab_nospace e he) sr hsr
+          simp only [Bool.or_eq_true, decide_eq_true_eq] at this
+          omega
+
+end Uni
+
+theorem mem_upper_iff (s : Str) (u : Nat) : u ∈ upper s ↔ ∃ d ∈ s, u ∈ Uni.upperC d := by
+  unfold upper; exact List.mem_flatMap
+
+theorem upper_cons (a : Nat) (t : Str) : upper (a :: t) = Uni.upperC a ++ upper t := by
+  unfold upper; exact List.flatMap_cons
+
+theorem upper_eq_nil_iff (s : Str) : upper s = [] ↔ s = [] := by
+  cases s with
+  | nil => simp
+  | cons a t =>
+    rw [upper_cons]
+    simp [Uni.upperC_ne_nil a]
+
+/-- a string whose ends are not white space keeps that property under `upper()` -/
+theorem strip_upper_of_stripped (s : Str) (h : strip s = s) : strip (upper s) = upper s := by
+  apply strip_eq_self'
+  · intro c hc
+    cases s with
+    | nil => simp at hc
+    | cons a t =>
+      rw [upper_cons] at hc
+      have hmem : c ∈ Uni.upperC a := by
+        cases hx : Uni.upperC a with
+        | nil => exact absurd hx (Uni.upperC_ne_nil a)
+        | cons x xs =>
+          rw [hx] at hc
+          simp only [List.cons_append, List.head?_cons, Option.some.injEq] at hc
+          rw [← hc]; exact List.mem_cons_self
+      have ha : Uni.isSpace a = false := strip_head_not_space (a :: t) a (by rw [h]; rfl)
+      cases hsp : Uni.isSpace c with
+      | false => rfl
+      | true => rw [Uni.isSpace_upperC hmem hsp] at ha; cases ha
+  · intro c hc
+    by_cases hne : s = []
+    · subst hne; simp at hc
+    · obtain ⟨init, z, rfl⟩ : ∃ init z, s = init ++ [z] :=
+        ⟨s.dropLast, s.getLast hne, (List.dropLast_concat_getLast hne).symm⟩
+      have hz : upper (init ++ [z]) = upper init ++ Uni.upperC z := by
+        rw [upper_append, upper_cons]; simp
+      rw [hz, List.getLast?_append] at hc
+      have hmem : c ∈ Uni.upperC z := by
+        have hl : (Uni.upperC z).getLast? = some ((Uni.upperC z).getLast (Uni.upperC_ne_nil z)) :=
+          List.getLast?_eq_some_getLast _
+        rw [hl] at hc
+        simp only [Option.some_or, Option.some.injEq] at hc
+        rw [← hc]; exact List.getLast_mem _
+      have hzs : Uni.isSpace z = false := strip_getLast?_not_space (init ++ [z]) z (by rw [h]; simp)
+      cases hsp : Uni.isSpace c with
+      | false => rfl
+      | true => rw [Uni.isSpace_upperC hmem hsp] at hzs; cases hzs
+
+/-- `s.strip().upper()` is a fixed point of `strip()` -/
+theorem strip_upper_strip (s : Str) : strip (upper (strip s)) = upper (strip s) :=
+  strip_upper_of_stripped _ (strip_strip s)
+
+example : strip (upper [97, 223, 0x149]) = upper [97, 223, 0x149] :=
+  strip_upper_of_stripped _ (by decide +kernel)
+
 end Py
